@@ -1,0 +1,11 @@
+// Copyright ©2024 The Gonum Authors. All rights reserved.
+// Use of this source code is governed by a BSD-style
+// license that can be found in the LICENSE file.
+
+//go:build !verif
+
+package gonum
+
+// verifBlock is an observation point used by the runtime monitors in /verif.
+// With the verif build tag off it is empty and inlined away.
+func verifBlock(double bool, i, j, leni, lenj int) {}
